@@ -1803,6 +1803,9 @@ def check_colr(spec, cx):
     font = new_font(n)
     gmap = font.getReverseGlyphMap()
     if spec["version"] == 0:
+        if not any(ls for b, ls in spec["v0"]):
+            cx.acc.exclude("colr-v0-no-layer-records-at-all (finding C02-colr0-empty-layers: base glyph records are dropped)")
+            return False
         layers = {names[b]: [(names[g], p) for g, p in ls] for b, ls in spec["v0"]}
         colr = cx.call("build", buildCOLR, layers, version=0, glyphMap=gmap)
         data = cx.call("compile", colr.compile, font)
@@ -1870,7 +1873,9 @@ def check_colr(spec, cx):
                 out[k] = {"Extend": v["Extend"], "ColorStop": [{"StopOffset": _q(s["StopOffset"], 14), "PaletteIndex": s["PaletteIndex"], "Alpha": _q(s["Alpha"], 14)} for s in v["ColorStop"]]}
             elif k == "Transform":
                 out[k] = {a: _q(b, 16) for a, b in v.items()}
-            elif k in ("Alpha", "scaleX", "scaleY", "scale", "angle", "xSkewAngle", "ySkewAngle"):
+            elif k in ("angle", "xSkewAngle", "ySkewAngle"):
+                out[k] = _q(v / 180, 14) * 180  # degrees, stored as F2Dot14 fractions of a half circle
+            elif k in ("Alpha", "scaleX", "scaleY", "scale"):
                 out[k] = _q(v, 14)
             else:
                 out[k] = v
@@ -1906,7 +1911,8 @@ def check_colr(spec, cx):
 
 FAMILIES = {
     "cmap": (G.cmap_specs, check_cmap),
-    "cmap-big": (lambda: G.cmap_specs(fmt=None, big=True), check_cmap),
+    "cmap-big12": (lambda: G.cmap_specs(fmt=12, big=True), check_cmap),
+    "cmap-big13": (lambda: G.cmap_specs(fmt=13, big=True), check_cmap),
     "metrics": (G.metrics_specs, check_metrics),
     "glyf": (G.glyf_specs, check_glyf),
     "glyf-loca": (G.glyf_loca_specs, check_glyf),
@@ -1921,8 +1927,8 @@ FAMILIES = {
 }
 
 # quick-tier case counts per family (thorough = x20)
-QUICK = {"cmap": 900, "cmap-big": 8, "metrics": 400, "glyf": 500, "glyf-loca": 24, "name": 500, "gdef": 400, "kern": 150, "post": 200, "os2": 120, "layout": 500, "var": 300, "colr": 200}
-SHARDS = {"cmap": 6, "cmap-big": 2, "metrics": 2, "glyf": 4, "glyf-loca": 4, "name": 2, "gdef": 3, "kern": 1, "post": 1, "os2": 1, "layout": 4, "var": 4, "colr": 2}
+QUICK = {"cmap": 900, "cmap-big12": 4, "cmap-big13": 4, "metrics": 400, "glyf": 500, "glyf-loca": 24, "name": 500, "gdef": 400, "kern": 150, "post": 200, "os2": 120, "layout": 500, "var": 300, "colr": 200}
+SHARDS = {"cmap": 8, "cmap-big12": 2, "cmap-big13": 2, "metrics": 4, "glyf": 6, "glyf-loca": 4, "name": 3, "gdef": 4, "kern": 1, "post": 2, "os2": 1, "layout": 6, "var": 5, "colr": 2}
 
 REQUIRED_LABELS = [
     "cmap4:idRangeOffset", "cmap4:idDelta", "cmap4:idDelta-wraps", "cmap4:U+FFFF-mapped", "cmap4:empty", "cmap0", "cmap2", "cmap6",
@@ -1934,7 +1940,16 @@ REQUIRED_LABELS = [
     "glyf:scale", "glyf:USE_MY_METRICS", "glyf:ROUND_XY_TO_GRID", "glyf:nested-composite", "glyf:odd-glyph-length",
     "glyf:odd-length-padded-for-short-loca", "loca:long", "loca:short", "glyf:size-near-0x20000",
     "name:mac_roman", "name:utf_16_be", "name:utf16-supplementary", "name:shift_jis", "name:mac-shift_jis", "name:shared-string-storage",
-    "coverage:fmt1", "coverage:fmt2", "classdef:fmt1", "classdef:fmt2",
+    "coverage:fmt1", "coverage:fmt2", "classdef:fmt1", "classdef:fmt2", "coverage:unsorted-glyph-list",
+    "kern:apple-1.0", "kern:version-0", "kern:several-subtables",
+    "post:fmt1", "post:fmt2", "post:fmt3", "post:standard-name", "post:duplicate-names", "post:long-name",
+    "os2:v0", "os2:v1", "os2:v2", "os2:v3", "os2:v4", "os2:v5",
+    "singlesubst:delta", "singlesubst:list", "singlesubst:delta-wraps", "multiple:fmt1", "alternate:fmt1", "ligature:fmt1",
+    "pairglyph:fmt1", "pairclass:fmt2", "markbase:attached", "singlepos:fmt1", "singlepos:fmt2", "layout:extension-lookup",
+    "tv:shared-points", "tv:private-points", "tv:all-points", "tv:some-points", "tv:shared-peak-tuple", "tv:embedded-peak",
+    "tv:intermediate-region", "tv:delta-run-zero", "tv:delta-run-byte", "tv:delta-run-word", "tv:delta-run-long",
+    "gvar:harfbuzz-outline", "gvar:inferred-deltas", "avar", "cvar", "tv:cvar-shares-point-numbers", "fvar:instances-with-psname",
+    "colr:v0", "colr:v1", "colr:paint-format-1", "colr:paint-format-12", "colr:paint-format-32",
 ]
 
 
